@@ -253,8 +253,27 @@ func (E *Effects) callMods(ci ssa.CallInstruction, useContracts bool) map[string
 	c := ci.Common()
 	name := calleeName(c)
 	if ct := E.S.Contracts[name]; ct != nil && ct.HasAssign {
-		for _, k := range E.assignKeys(ct, c) {
+		plain := *ct
+		plain.Assigns = nil
+		ownership := false
+		for _, a := range ct.Assigns {
+			if strings.HasPrefix(strings.TrimSpace(a), "fields(") {
+				ownership = true
+			} else {
+				plain.Assigns = append(plain.Assigns, a)
+			}
+		}
+		for _, k := range E.assignKeys(&plain, c) {
 			out[k] = true
+		}
+		if ownership {
+			// the keys the dynamic callee could write, as computed without the contract
+			saved := E.S.Contracts[name]
+			delete(E.S.Contracts, name)
+			for k := range E.callMods(ci, useContracts) {
+				out[k] = true
+			}
+			E.S.Contracts[name] = saved
 		}
 		if !ct.Pure {
 			// allocation is always permitted
